@@ -217,7 +217,28 @@ func C19(ctx *core.Ctx) {
 				for _, x := range b.Instrs {
 					switch y := x.(type) {
 					case *ssa.MapUpdate:
-						how = append(how, "map insert")
+						// two iterations must not be able to write different values under one key
+						// (last writer would win in map order): the key is this range's own key
+						// (distinct per iteration), or the value does not depend on the iteration
+						keyOK := false
+						if e, isE := ssax.Strip(y.Key).(*ssa.Extract); isE && e.Tuple == ssa.Value(next) && e.Index == 1 {
+							keyOK = true
+						}
+						valOK := false
+						switch vv := ssax.Strip(y.Value).(type) {
+						case *ssa.Const:
+							valOK = true
+						case *ssa.MakeInterface:
+							_, valOK = vv.X.(*ssa.Const)
+						}
+						if st, isSt := y.Value.Type().Underlying().(*types.Struct); isSt && st.NumFields() == 0 {
+							valOK = true
+						}
+						if keyOK || valOK {
+							how = append(how, "map insert")
+						} else {
+							problem = "inserts an iteration-dependent value under a computed key (" + y.Key.Name() + "): if two entries map to the same key the last writer wins in map order"
+						}
 					case *ssa.Store:
 						root := addrRoot(y.Addr)
 						if _, isAlloc := root.(*ssa.Alloc); !isAlloc {
